@@ -151,6 +151,16 @@ def layout_cases(draw, tier):
         params = gen.drop_param(params, 'Do AddOn Calculations')
         params = gen.merge(params, [['Do S-DAC-GT Calculations', 'True'], ['S-DAC-GT CAPEX', gen.fmt(draw(gen.nice_floats(800, 2000)))]])
         extra.append('extensions_auto_detected')
+    elif k == 2:
+        # a parameter stated under both of its documented spellings (current name and the deprecated one still accepted) with
+        # different values: the reader lets the current name govern, wherever the two lines stand
+        a, b = draw(gen.nice_floats(60, 9000)), draw(gen.nice_floats(60, 9000))
+        pair = [['Nonvertical Length per Multilateral Section', gen.fmt(a)], ['Total Nonvertical Length', gen.fmt(b if b != a else a + 7.0)]]
+        if draw(st.booleans()):
+            pair.reverse()
+        params = gen.merge(gen.drop_param(gen.drop_param(params, 'Nonvertical Length per Multilateral Section'), 'Total Nonvertical Length'),
+                           [['Number of Multilateral Sections', str(draw(st.integers(1, 4)))]], pair)
+        extra.append('both_spellings_of_one_parameter')
     text, classes = draw(decorated(params, prefer_dup=('Gradients', 'Thicknesses') if 'list_style_profile' in extra else ()))
     return {'kind': 'layout', 'family': base['family'], 'params': params, 'text': text, 'classes': sorted(set(classes) | set(extra))}
 
